@@ -65,6 +65,7 @@ pub const OP_MKDIRAT: u8 = 37;
 pub const OP_SOCKET: u8 = 45;
 
 pub const SQE_IO_LINK: u8 = 4;
+pub const SQE_IO_HARDLINK: u8 = 8;
 
 pub const ECANCELED: i32 = libc::ECANCELED;
 
